@@ -507,8 +507,23 @@ impl<'a> LoweringManager<'a> {
           } else {
             false
           };
+          // A variable that is stored as (ref eq), e.g. the type-erased `_this` of a method captured by a
+          // closure, must be cast before it can initialize a field of a specific struct type.
+          let cast_target = match (field_types.and_then(|fields| fields.get(i)), e) {
+            (Some(wasm::Type::Reference(field_type)), lir::Expression::Variable(n, _))
+              if matches!(self.local_variables.get(n), Some(wasm::Type::Eq)) =>
+            {
+              Some(*field_type)
+            }
+            _ => None,
+          };
           if needs_i31 {
             wasm_expression_list.push(wasm::InlineInstruction::I31New(Box::new(lowered)));
+          } else if let Some(field_type) = cast_target {
+            wasm_expression_list.push(wasm::InlineInstruction::Cast {
+              pointer_type: lir::Type::Id(field_type),
+              value: Box::new(lowered),
+            });
           } else {
             wasm_expression_list.push(lowered);
           }
